@@ -135,10 +135,13 @@ def _env():
 
 
 # ---------------------------------------------------------------------------------- questions
-def qdesc(kind, choices=(), multi=False, default=None, defB=True, maxAtt=0, interactive=True, validator=None, pat=None):
-    """JSON-able description of a question (python strings)"""
+def qdesc(kind, choices=(), multi=False, default=None, defB=True, maxAtt=0, interactive=True, validator=None, pat=None,
+          built=None):
+    """JSON-able description of a question (python strings).  choices = the caller's list when the question is asked,
+    built = the same list when the question object was constructed (the caller changed it in place in between)"""
     return {
-        "kind": kind, "choices": list(choices), "multi": bool(multi), "hasDef": default is not None,
+        "kind": kind, "choices": list(choices), "built": list(choices if built is None else built),
+        "multi": bool(multi), "hasDef": default is not None,
         "def": default or "", "defB": bool(defB), "maxAtt": int(maxAtt), "interactive": bool(interactive),
         "validator": (kind == "choice") if validator is None else bool(validator), "pat": pat or NOPAT,
     }
@@ -148,7 +151,8 @@ def q_event(qd):
     """the question as the trace module reads it (texts as lists of characters)"""
     p = qd["pat"]
     return {
-        "kind": qd["kind"], "choices": [list(c) for c in qd["choices"]], "multi": qd["multi"], "hasDef": qd["hasDef"],
+        "kind": qd["kind"], "choices": [list(c) for c in qd["choices"]],
+        "built": [list(c) for c in qd.get("built", qd["choices"])], "multi": qd["multi"], "hasDef": qd["hasDef"],
         "def": list(qd["def"]), "defB": qd["defB"], "maxAtt": qd["maxAtt"], "interactive": qd["interactive"],
         "validator": qd["validator"], "pat": {"ci": p["ci"], "alts": [list(a) for a in p["alts"]], "whole": p["whole"]},
     }
@@ -163,9 +167,11 @@ def build(qd):
     k = qd["kind"]
     default = qd["def"] if qd["hasDef"] else None
     if k == "choice":
-        q = E["ChoiceQuestion"]("Pick one", list(qd["choices"]), default)
+        callers_list = list(qd.get("built", qd["choices"]))
+        q = E["ChoiceQuestion"]("Pick one", callers_list, default)
         q.set_multi_select(qd["multi"])
         q.set_max_attempts(qd["maxAtt"] or None)
+        callers_list[:] = qd["choices"]  # the caller edits the list it passed in (append / replace / remove), in place
     elif k == "plain":
         q = E["Question"]("Say", default)
         if qd["validator"]:
@@ -230,8 +236,8 @@ class Session(object):
         self.io = E["IO"](E["Input"](self.ins), E["Output"](self.out, fmt), E["Output"](self.err, fmt))
         self.dead = False
 
-    def ask(self, qd):
-        """asks the question, returns the event record"""
+    def ask(self, qd, question=None, sess=1, obj=0, reask=False):
+        """asks the question (a fresh object unless one is given), returns the event record"""
         E = _env()
         ins, out, err = self.ins, self.out, self.err
         start = ins.consumed
@@ -243,8 +249,10 @@ class Session(object):
         err.budget = err.writes + 4 * (allow + 2)
         self.io.set_interactive(qd["interactive"])
         kind, cls, val = "ret", "", None
+        if question is None:
+            question = build(qd)
         try:
-            val = build(qd).ask(self.io)
+            val = question.ask(self.io)
         except Budget:
             kind = "budget"
             self.dead = True
@@ -253,8 +261,9 @@ class Session(object):
         except BaseException as e:  # noqa: every exception kind is an observation
             kind, cls = "exc", type(e).__name__
         etext = err.fetch()[e0:]
+        left = getattr(question, "max_attempts", None)
         return {
-            "q": q_event(qd),
+            "q": q_event(qd), "sess": sess, "obj": obj, "reask": reask,
             "script": [list(x) for x in self.lines],
             "start": start,
             "obs": {
@@ -263,21 +272,38 @@ class Session(object):
                 "errs": sum(1 for ln in etext.split("\n") if E["ERR"] in ln),
                 "prompts": etext.count(E["QST"]),
                 "outBytes": len(out.fetch()) - o0, "errBytes": len(etext),
+                "maxAfter": 0 if left is None else (left if isinstance(left, int) and not isinstance(left, bool) else -1),
             },
         }
 
 
+def normal(case):
+    """older replay files: {"lines", "questions"} = one input, a fresh object per question"""
+    if "sessions" in case:
+        return case
+    return {"objects": case["questions"], "sessions": [{"lines": case["lines"], "asks": list(range(len(case["questions"])))}]}
+
+
 def run_case(case):
-    """case = {"lines": [...], "questions": [qd, ...]} -> trace (list of events)"""
+    """case = {"objects": [qd, ...], "sessions": [{"lines": [...], "asks": [object index, ...]}, ...]} -> trace.
+    A question object is built when it is first asked and kept: asking index i again re-asks the SAME object,
+    within one input or on a later one."""
+    case = normal(case)
     old = signal.signal(signal.SIGALRM, _on_alarm)
     signal.alarm(STALL_S)
     try:
-        s = Session(case["lines"])
+        objs = {}
         tr = []
-        for qd in case["questions"]:
-            tr.append(s.ask(qd))
-            if s.dead:
-                break
+        for k, ses in enumerate(case["sessions"]):
+            s = Session(ses["lines"])
+            for i in ses["asks"]:
+                qd = case["objects"][i]
+                reask = i in objs
+                if not reask:
+                    objs[i] = build(qd)
+                tr.append(s.ask(qd, objs[i], k + 1, i + 1, reask))
+                if s.dead:
+                    return tr
         return tr
     except Stalled:
         raise T.MachineryError("a dialogue made no progress for %d s (no read, no write, no end): %r" % (STALL_S, case))
@@ -298,15 +324,25 @@ def case_of(rec, pools):
     else:
         dpool = pools["defaults"] if k == "choice" else pools["plainDefaults"]
         qd = qdesc(k, [pools["choices"][j - 1] for j in rec["c"]], rec["m"], dpool[rec["d"] - 1] if rec["d"] else None,
-                   maxAtt=rec["a"], interactive=rec["i"], validator=rec["v"])
+                   maxAtt=rec["a"], interactive=rec["i"], validator=rec["v"], built=rec["b"] if k == "choice" else None)
         lines = [pools["answers"][j - 1] for j in rec["s"]]
-    return {"lines": lines, "questions": [qd]}
+    # rounds = 2: the same question object is asked twice on the one input
+    return {"objects": [qd], "sessions": [{"lines": lines, "asks": [0] * rec["rounds"]}]}
+
+
+def _exp(o, r, n, e, w, att):
+    return {"kind": o["ok"], "cls": o["x"],
+            "val": {"t": o["t"], "s": list(o["vs"]), "l": [list(x) for x in o["vl"]], "b": o["vb"]},
+            "reads": r, "consumed": n, "errs": e, "prompts": w, "maxAfter": att}
 
 
 def expected_obs(rec):
-    return {"kind": rec["ok"], "cls": rec["x"],
-            "val": {"t": rec["t"], "s": list(rec["vs"]), "l": [list(x) for x in rec["vl"]], "b": rec["vb"]},
-            "reads": rec["r"], "consumed": rec["n"], "errs": rec["e"], "prompts": rec["w"]}
+    """the model's outcome of every dialogue of the behaviour"""
+    last = _exp(rec, rec["r"], rec["n"], rec["e"], rec["w"], rec["a"])
+    if rec["rounds"] == 1:
+        return [last]
+    f = rec["f"]
+    return [_exp(f["o"], f["r"], f["n"], f["e"], f["w"], rec["a"]), last]
 
 
 def same(exp, o):
@@ -361,7 +397,8 @@ class Replayer(object):
         self.cats[cat] = self.cats.get(cat, 0) + 1
         if nontrivial(tr[0]):
             self.ctx.nontrivial_n += 1  # every TLC behaviour is a distinct (question, script)
-        if not same(expected_obs(rec), tr[0]["obs"]):
+        exp = expected_obs(rec)
+        if len(tr) != len(exp) or not all(same(x, ev["obs"]) for x, ev in zip(exp, tr)):
             # all of them are decided by DialogueTrace up to KEEP; beyond that a uniform sample of KEEP (reservoir)
             self.nmism += 1
             if len(self.mism) < self.KEEP:
@@ -373,7 +410,7 @@ class Replayer(object):
         elif self.n % 97 == 0 and len(self.sampled) < 3000:
             self.sampled.append((tr, case))
         if self.first is None and rec["r"] >= 2:
-            self.first = {"tlc_behaviour": case, "model_outcome": expected_obs(rec)}
+            self.first = {"tlc_behaviour": case, "model_outcome": exp}
         return True
 
 
@@ -439,21 +476,45 @@ def rand_question(rng):
     return qdesc("choice", choices, multi, default, maxAtt=att, interactive=inter)
 
 
+def callers_edit(rng, qd):
+    """the caller changed its list after building the question: qd["built"] is what the list held at that time"""
+    cs = qd["choices"]
+    x = rng.random()
+    if x < 0.4 and len(cs) >= 2:
+        qd["built"] = cs[:-1]  # appended the last choice
+    elif x < 0.75:
+        qd["built"] = [rng.choice(["gone", "Robin", "7"])] + cs[1:]  # replaced the first
+    else:
+        qd["built"] = cs + [rng.choice(["gone", "Robin"])]  # removed one
+    return qd
+
+
 def rand_case(rng):
-    qs = [rand_question(rng) for _ in range(rng.randint(1, 4))]
-    lines = []
-    for qd in qs:
-        for _ in range(rng.choice([0, 1, 1, 1, 2, 2, 3])):
-            lines.append(rand_line(rng, qd))
-    if rng.random() < 0.3:  # plenty of input: the dialogues end before the input does
-        lines += [rand_line(rng, qs[-1]) for _ in range(3)]
-    return {"lines": lines, "questions": qs}
+    """1-2 inputs; 1-4 question objects, some of them asked again (same input or the next one)"""
+    objects = [rand_question(rng) for _ in range(rng.randint(1, 4))]
+    for qd in objects:
+        if qd["kind"] == "choice" and rng.random() < 0.2:
+            callers_edit(rng, qd)
+    sessions = []
+    for _s in range(rng.choice([1, 1, 2])):
+        asks = list(range(len(objects))) if not sessions else []
+        for _ in range(rng.choice([0, 1, 1, 2]) + (1 if sessions else 0)):
+            asks.insert(rng.randint(1 if asks else 0, len(asks)), rng.randrange(len(objects)))
+        lines = []
+        for i in asks:
+            for _ in range(rng.choice([0, 1, 1, 1, 2, 2, 3])):
+                lines.append(rand_line(rng, objects[i]))
+        if rng.random() < 0.3:  # plenty of input: the dialogues end before the input does
+            lines += [rand_line(rng, objects[asks[-1]]) for _ in range(3)]
+        sessions.append({"lines": lines, "asks": asks})
+    return {"objects": objects, "sessions": sessions}
 
 
 # ---------------------------------------------------------------------------------- check
+REASK = ("MC_Dialogue_reask.cfg", "same-object-asked-twice + caller-edits-the-list", 9000)
 MODEL_RUNS = {
-    "quick": [("MC_Dialogue_quick.cfg", "choice-dialogues", 60000), ("MC_Dialogue_misc.cfg", "plain-confirm-noninteractive", 1500)],
-    "thorough": [("MC_Dialogue_quick.cfg", "choice-dialogues", 60000), ("MC_Dialogue_misc.cfg", "plain-confirm-noninteractive", 1500),
+    "quick": [("MC_Dialogue_quick.cfg", "choice-dialogues", 60000), ("MC_Dialogue_misc.cfg", "plain-confirm-noninteractive", 1500), REASK],
+    "thorough": [("MC_Dialogue_quick.cfg", "choice-dialogues", 60000), ("MC_Dialogue_misc.cfg", "plain-confirm-noninteractive", 1500), REASK,
                  ("MC_Dialogue_thorough_a.cfg", "choice-dialogues-3-lines (safety)", 600000),
                  ("MC_Dialogue_thorough_b.cfg", "choice-dialogues-3-choices (safety)", 500000)],
 }
@@ -466,8 +527,10 @@ def run(ctx):
         "TLC enumerates every (choice list, select mode, default, attempt limit, script) over small pools, checks the "
         "P-clauses on the model's outcome and termination under weak fairness, and emits each finished dialogue; every one "
         "is replayed on the real ChoiceQuestion / Question / ConfirmationQuestion behind a read budget and compared "
-        "(outcome, value, reads, lines consumed, error lines, prompts); seeded random sessions (1-4 questions on one "
-        "input, 1-5 choices, scripts up to 12 lines) are validated by DialogueTrace.  Non-trivial: the dialogue was asked "
+        "(outcome, value, reads, lines consumed, error lines, prompts, max_attempts afterwards); one configuration asks the "
+        "SAME question object twice on one input and lets the caller change its choice list between construction and ask; "
+        "seeded random sessions (1-2 inputs, 1-4 question objects some of them asked again, caller-edited lists, 1-5 "
+        "choices, scripts up to 12 lines) are validated by DialogueTrace.  Non-trivial: the dialogue was asked "
         "again at least once, met the end of input, or is multi-select"
     )
     ctx.assumptions += [
@@ -480,6 +543,8 @@ def run(ctx):
         "every rejected entry is reported once: printed when the question is asked again, printed or raised when attempts are exhausted",
         "at end of input the question must fail (any exception) within remaining lines + attempt limit + %d reads" % SLACK,
         "stty is unreachable (module attribute substitution), ASCII answers, lines shorter than 4096 characters",
+        "the choices of a question are the content of the caller's list at the time of asking (the question keeps a reference)",
+        "every dialogue of a question object is judged by the configured attempt limit: nothing survives in the object",
     ]
     # the retry loop of the pinned tree, as a model: TLC must find the lasso (the liveness property has teeth)
     r = ctx.model(SPEC, "MC_Dialogue", "MC_Dialogue_lasso.cfg", name="pinned-retry-loop-spins (violation expected)",
@@ -487,6 +552,11 @@ def run(ctx):
     if not r.violated:
         raise T.MachineryError("Termination is not violated by the retry-on-abort variant: the liveness check is vacuous")
     ctx.extra["lasso_of_retry_on_abort_found_by_tlc"] = True
+    if not quick:  # a validator that keeps the list as it was at construction: TLC must find a P-clause broken
+        r = ctx.model(SPEC, "MC_Dialogue", "MC_Dialogue_snapshot.cfg", name="validator-on-snapshot (violation expected)",
+                      expect_ok=False, workers=4)
+        if not r.violated:
+            raise T.MachineryError("the snapshot variant breaks no P-clause: the caller-edits step is vacuous")
 
     rp = Replayer(ctx)
     for cfg, name, least in MODEL_RUNS[ctx.tier]:
